@@ -213,3 +213,35 @@ def init_forwarding(ctx, cls):
             ctx.fail(f, sup[0], '%s.__init__ stores `%s = %s` (another parameter)' % (cls, k.arg, v.id), stmt=v)
             continue
         raise AnalysisError('unrecognised value for %s in %s.__init__: %s' % (k.arg, cls, U(v)))
+
+
+def expect_guards(ctx, fn, table, where=None):
+    """table = [(test formula, canonical text of the first statement of the guarded block, what it means)].
+    For each row there must be an `if` (anywhere in fn, or among `where`) whose test is propositionally equivalent to the formula and whose
+    block starts with that statement. A guard whose block matches but whose test is not equivalent is reported with the falsifying assignment."""
+    ifs = [s for s in (where if where is not None else ast.walk(fn.node)) if isinstance(s, ast.If)]
+    for formula, action, meaning in table:
+        ctx.count(1, '%s: %s' % (fn.qual, formula))
+        act = ' '.join(ast.unparse(ast.parse(action)).split())
+        cands = []
+        for s in ifs:
+            for test, body in if_chain(s):
+                if test is not None and body and ' '.join(U(body[0]).split()) == act:
+                    cands.append((s, test))
+        if not cands:
+            ctx.fail(fn, fn.node, '%s: no branch doing `%s` (%s)' % (fn.qual, action, meaning), stmt='%s lacks: if %s: %s' % (fn.qual, formula, action))
+            continue
+        good = False
+        bad = None
+        for s, test in cands:
+            try:
+                ok, w = prop_equiv(test, formula)
+            except AnalysisError:
+                ok, w = False, None
+            if ok:
+                good = True
+            else:
+                bad = (s, test, w)
+        if not good:
+            s, test, w = bad
+            ctx.fail(fn, s, '`%s` is done when `%s`, expected when `%s` (%s)' % (action, U(test), formula, meaning), witness=w, stmt=test)
